@@ -28,6 +28,7 @@ def _sh():
         _tl.stack = []  # list of tuples of dict ids
         _tl.flat = False
         _tl.paths = []  # '?' leaf positions this thread has entered and not left (innermost last)
+        _tl.suspended = []  # (flat, paths) of the PyTree check a context was entered from
     return _tl
 
 
@@ -73,10 +74,15 @@ def attach():
 
     def push_shape_memo(*a, **k):
         memos = orig["push_shape_memo"](*a, **k)
+        sh = _sh()
         try:
-            _sh().stack.append(tuple(map(id, memos)))
+            sh.stack.append(tuple(map(id, memos)))
         except TypeError:
-            _sh().stack.append(None)
+            sh.stack.append(None)
+        # a new context starts outside the PyTree check it was entered from: flatten mode and '?' position are
+        # suspended for its duration and come back when it ends
+        sh.suspended.append((sh.flat, sh.paths))
+        sh.flat, sh.paths = False, []
         counters["push"] += 1
         return memos
 
@@ -87,6 +93,8 @@ def attach():
             _viol("balance", "pop_shape_memo on a thread that has no open context")
         else:
             sh.stack.pop()
+            if sh.suspended:
+                sh.flat, sh.paths = sh.suspended.pop()
         return orig["pop_shape_memo"](*a, **k)
 
     def get_treepath_memo(*a, **k):
